@@ -1,6 +1,7 @@
 package main
 
 import (
+	"go/token"
 	"encoding/json"
 	"flag"
 	"fmt"
@@ -519,6 +520,10 @@ func cmdCheck(args []string) int {
 	_ = results
 	_ = mu
 	entryPre := map[string]bool{}
+	entryPreKey := map[string]string{}    // assumption text -> "UNIT.name"
+	establishedBy := map[string]string{}  // "UNIT.name" -> unit that asserts it at the entry / call site
+	modularNotes := map[string]bool{}
+	sitesAt := map[string]map[token.Pos]string{} // "FUNC.name" -> call site -> verified caller asserting it there
 	for _, u := range units {
 		var ui unitInfo
 		for pi, pass := range passes {
@@ -542,7 +547,9 @@ func cmdCheck(args []string) int {
 						if u.Region != "" {
 							kind = "region"
 						}
-						entryPre[fmt.Sprintf("entry precondition of %s %s, assumed at its entry (holds for a caller only where a call-pre obligation of a verified caller establishes it): %s: %s", kind, u.ID(), r.Name, r.Text)] = true
+						txt := fmt.Sprintf("entry precondition of %s %s, assumed at its entry (holds for a caller only where a call-pre obligation of a verified caller establishes it): %s: %s", kind, u.ID(), r.Name, r.Text)
+						entryPre[txt] = true
+						entryPreKey[txt] = u.ID() + "." + r.Name
 					}
 				}
 			}
@@ -576,6 +583,20 @@ func cmdCheck(args []string) int {
 				}
 				for a := range res.Exec.trustedUsed {
 					trusted[a] = true
+				}
+				for k := range res.Exec.established {
+					establishedBy[k] = u.ID()
+				}
+				for k, sites := range res.Exec.establishedAt {
+					if sitesAt[k] == nil {
+						sitesAt[k] = map[token.Pos]string{}
+					}
+					for p := range sites {
+						sitesAt[k][p] = u.ID()
+					}
+				}
+				for k := range res.Exec.modularUsed {
+					modularNotes[k] = true
 				}
 			}
 		}
@@ -718,11 +739,53 @@ func cmdCheck(args []string) int {
 	sort.Strings(tr)
 	ass = append(ass, tr...)
 	var ep []string
+	// a function's precondition counts as established when every syntactic call site of the function asserts it
+	for _, u := range units {
+		if u.Region != "" || u.Lemma {
+			continue
+		}
+		fu := prog.Lookup(u.PkgDir, u.Func)
+		if fu == nil {
+			continue
+		}
+		total := -2
+		for _, r := range u.Requires {
+			k := u.ID() + "." + r.Name
+			if len(sitesAt[k]) == 0 {
+				continue
+			}
+			if total == -2 {
+				total = prog.callSites(fu)
+			}
+			if total > 0 && len(sitesAt[k]) >= total {
+				callers := map[string]bool{}
+				for _, c := range sitesAt[k] {
+					callers[c] = true
+				}
+				var cl []string
+				for c := range callers {
+					cl = append(cl, c)
+				}
+				sort.Strings(cl)
+				establishedBy[k] = strings.Join(cl, ", ") + fmt.Sprintf("; all %d call sites", total)
+			}
+		}
+	}
+	var est []string
 	for a := range entryPre {
+		if by, ok := establishedBy[entryPreKey[a]]; ok {
+			// not an assumption in this check: asserted (as an obligation of unit `by`) where the region is entered / the function is called
+			est = append(est, fmt.Sprintf("%s (obligation of %s)", entryPreKey[a], by))
+			continue
+		}
 		ep = append(ep, a)
 	}
 	sort.Strings(ep)
 	ass = append(ass, ep...)
+	for a := range modularNotes {
+		ass = append(ass, a)
+	}
+	sort.Strings(est)
 	var ab []string
 	for a := range abstractedAll {
 		ab = append(ab, "abstracted: "+a)
@@ -740,6 +803,7 @@ func cmdCheck(args []string) int {
 			"checker_cmd":              fmt.Sprintf("./bin/hvc check %s --tier %s", prop, *tier),
 			"trusted_base":             baseTrusted,
 			"functions_under_contract": uinfos,
+			"preconditions_established_by_callers": est,
 			"by_solver":                bySolver,
 			"discharged_by":            dischargedBy,
 			"solver_time_s":            solverTime,
